@@ -157,7 +157,13 @@ def _attach_parent_to_exprs(obj: Class | Function | Attribute, parent: Module | 
 
 
 def _load_module(obj_dict: dict[str, Any]) -> Module:
-    module = Module(name=obj_dict["name"], filepath=Path(obj_dict["filepath"]), docstring=_load_docstring(obj_dict))
+    # The file path is a list of directories for namespace packages, and null for built-in modules.
+    filepath: Path | list[Path] | None = obj_dict.get("filepath")
+    if isinstance(filepath, list):
+        filepath = [Path(path) for path in filepath]
+    elif filepath is not None:
+        filepath = Path(filepath)
+    module = Module(name=obj_dict["name"], filepath=filepath, docstring=_load_docstring(obj_dict))
     # YORE: Bump 2: Replace line with `members = obj_dict.get("members", {}).values()`.
     members = obj_dict.get("members", [])
     # YORE: Bump 2: Remove block.
